@@ -6,6 +6,7 @@ answers `ub` on a table that satisfies the invariant.
 -/
 import EngineModel.Api.GuardedTracksV2
 import Proofs.NoUbGuardsGen
+import Proofs.C15GuardValues
 import Proofs.NoUbTracksV2
 
 namespace EngineModel.Api.GuardedTracksV2
@@ -27,13 +28,22 @@ theorem s32_toNat_of_nonneg (i : UInt32) (h : 0 ≤ s32 i) : (s32 i).toNat = i.t
   have := i.toNat_lt
   unfold s32 at h ⊢; split at h <;> split <;> omega
 
-/-- what the regenerated range test of the four 2.x slot accessors says -/
-theorem range_iff (i : UInt32) (n : Nat) :
-    ((decide (s32 i < (0 : Int))) || (decide (((s32 i % 4294967296) % 18446744073709551616) ≥ (n : Int)))) = true ↔
-      (s32 i < 0 ∨ n ≤ i.toNat) := by
-  rw [s32_wrap]
-  simp only [Bool.or_eq_true, decide_eq_true_eq]
-  omega
+/-- what each regenerated range test of the four 2.x slot accessors says about an `int` argument -/
+theorem range_of (guard : Int → Nat → Bool) (hg : C15Guards.IsRange guard) (i : UInt32) (n : Nat) :
+    guard (s32 i) n = true ↔ (s32 i < 0 ∨ n ≤ i.toNat) := by
+  obtain ⟨h1, h2⟩ := s32_bounds i
+  rw [hg (s32 i) n h1 h2]
+  have := i.toNat_lt
+  unfold s32; split <;> omega
+
+theorem hotCueAt_iff (i : UInt32) (n : Nat) : Guards.source.hotCueAt (s32 i) n = true ↔ (s32 i < 0 ∨ n ≤ i.toNat) :=
+  range_of _ C15Guards.v2_track_hot_cue_at_range_isRange i n
+theorem setHotCueAt_iff (i : UInt32) (n : Nat) : Guards.source.setHotCueAt (s32 i) n = true ↔ (s32 i < 0 ∨ n ≤ i.toNat) :=
+  range_of _ C15Guards.v2_track_set_hot_cue_at_range_isRange i n
+theorem loopAt_iff (i : UInt32) (n : Nat) : Guards.source.loopAt (s32 i) n = true ↔ (s32 i < 0 ∨ n ≤ i.toNat) :=
+  range_of _ C15Guards.v2_track_loop_at_range_isRange i n
+theorem setLoopAt_iff (i : UInt32) (n : Nat) : Guards.source.setLoopAt (s32 i) n = true ↔ (s32 i < 0 ∨ n ≤ i.toNat) :=
+  range_of _ C15Guards.v2_track_set_loop_at_range_isRange i n
 
 theorem indexAt_of_lt {α : Type} (l : List α) (i : UInt32) (h0 : ¬ s32 i < 0) (hlt : i.toNat < l.length) :
     indexAt l (s32 i) = .ok (l[i.toNat]'hlt) := by
@@ -43,27 +53,34 @@ theorem indexAt_of_lt {α : Type} (l : List α) (i : UInt32) (h0 : ¬ s32 i < 0)
   simp [List.getElem?_eq_getElem hlt]
 
 theorem getHotCueAtG_eq (r : Row) (i : UInt32) : getHotCueAtG Guards.source r i = getHotCueAt r i := by
-  unfold getHotCueAtG getHotCueAt slotIndex Guards.source C15Guards.v2_track_hot_cue_at_range
-  by_cases h : s32 i < 0 ∨ r.cues.1.cues.length ≤ i.toNat
-  · rw [if_pos ((range_iff i _).mpr h), if_pos h]; rfl
-  · rw [if_neg (fun hh => h ((range_iff i _).mp hh)), if_neg h]
+  unfold getHotCueAtG getHotCueAt slotIndex
+  cases hg : Guards.source.hotCueAt (s32 i) r.cues.1.cues.length with
+  | true =>
+    have h := (hotCueAt_iff i _).mp hg
+    rw [if_pos h]; rfl
+  | false =>
+    have h : ¬ (s32 i < 0 ∨ r.cues.1.cues.length ≤ i.toNat) := by
+      intro hh; rw [(hotCueAt_iff i _).mpr hh] at hg; cases hg
+    rw [if_neg h]
     have hlt : i.toNat < r.cues.1.cues.length := by omega
+    simp only [Bool.false_eq_true, if_false]
     rw [indexAt_of_lt _ i (by omega) hlt]
     simp [Res.bind, List.getElem?_eq_getElem hlt]
 
 theorem getLoopAtG_eq (r : Row) (i : UInt32) : getLoopAtG Guards.source r i = getLoopAt r i := by
-  unfold getLoopAtG getLoopAt slotIndex Guards.source C15Guards.v2_track_loop_at_range
-  by_cases h : s32 i < 0 ∨ r.loops.1.length ≤ i.toNat
-  · rw [if_pos ((range_iff i _).mpr h), if_pos h]; rfl
-  · rw [if_neg (fun hh => h ((range_iff i _).mp hh)), if_neg h]
+  unfold getLoopAtG getLoopAt slotIndex
+  cases hg : Guards.source.loopAt (s32 i) r.loops.1.length with
+  | true =>
+    have h := (loopAt_iff i _).mp hg
+    rw [if_pos h]; rfl
+  | false =>
+    have h : ¬ (s32 i < 0 ∨ r.loops.1.length ≤ i.toNat) := by
+      intro hh; rw [(loopAt_iff i _).mpr hh] at hg; cases hg
+    rw [if_neg h]
     have hlt : i.toNat < r.loops.1.length := by omega
+    simp only [Bool.false_eq_true, if_false]
     rw [indexAt_of_lt _ i (by omega) hlt]
     simp [Res.bind, List.getElem?_eq_getElem hlt]
-
-theorem setHotCueAt_iff (i : UInt32) (n : Nat) :
-    Guards.source.setHotCueAt (s32 i) n = true ↔ (s32 i < 0 ∨ n ≤ i.toNat) := range_iff i n
-theorem setLoopAt_iff (i : UInt32) (n : Nat) :
-    Guards.source.setLoopAt (s32 i) n = true ↔ (s32 i < 0 ∨ n ≤ i.toNat) := range_iff i n
 
 theorem setSiteG_ok (r : Row) (σ : Setter) : setSiteG Guards.source r σ = .ok () := by
   cases σ with
@@ -111,15 +128,13 @@ theorem toI64_inI64 (x : F) (v : Int) (h : toI64 x = some v) : Cxx.inI64 v = tru
       · rw [if_pos h3] at h; cases h
       · rw [if_neg h3] at h; cases h; omega
 
-theorem waveLoop_iff (i size : Nat) : Guards.source.waveLoop i size = true ↔ i < size := by
-  simp [Guards.source, C15Guards.v2_wave_loop]
-theorem waveEmpty_eq (b : Bool) : Guards.source.waveEmpty b = b := rfl
-theorem waveAbsent_eq (a b : Bool) : Guards.source.waveAbsent a b = ((!a) || (!b)) := rfl
-theorem waveRange_eq (b : Bool) : Guards.source.waveRange b = (!b) := rfl
-theorem waveNonEmpty_eq (b : Bool) : Guards.source.waveNonEmpty b = (!b) := rfl
-theorem waveNoExtent_iff (n : Nat) : Guards.source.waveNoExtent n = true ↔ n = 0 := by
-  simp [Guards.source, C15Guards.v2_wave_noextent]
-theorem bpmInRange_eq (a b c : Bool) : Guards.source.bpmInRange a b c = ((a && b) && c) := rfl
+theorem waveLoop_iff (i size : Nat) : Guards.source.waveLoop i size = true ↔ i < size := C15Guards.v2_wave_loop_iff i size
+theorem waveEmpty_eq (b : Bool) : Guards.source.waveEmpty b = b := C15Guards.v2_wave_empty_eq b
+theorem waveAbsent_eq (a b : Bool) : Guards.source.waveAbsent a b = ((!a) || (!b)) := C15Guards.v2_wave_absent_eq a b
+theorem waveRange_eq (b : Bool) : Guards.source.waveRange b = (!b) := C15Guards.v2_wave_range_eq b
+theorem waveNonEmpty_eq (b : Bool) : Guards.source.waveNonEmpty b = (!b) := C15Guards.v2_wave_nonempty_eq b
+theorem waveNoExtent_iff (n : Nat) : Guards.source.waveNoExtent n = true ↔ n = 0 := C15Guards.v2_wave_noextent_iff n
+theorem bpmInRange_eq (a b c : Bool) : Guards.source.bpmInRange a b c = ((a && b) && c) := C15Guards.v2_bpm_inrange_eq a b c
 
 theorem waveLoopG_ok (w : List WEntry) (hw : w ≠ []) (size : Nat) (hs : size ≤ 1024) :
     ∀ (fuel i : Nat), size - i < fuel → waveLoopG Guards.source w size fuel i = .ok () := by
@@ -323,6 +338,8 @@ theorem outcomesG_eq (ops : FOps) (s : Schema) (l : List Op) : ∀ db, outcomesG
 
 theorem tracksByPathG_ok (db : Db) (p : Bytes) : ∃ l, tracksByPathG Guards.source db p = .ok l := by
   unfold tracksByPathG
+  have hg : ∀ b, Guards.source.tracksByPathFound b = b := C15Guards.v2_db_tracks_by_path_found_eq
+  simp only [hg]
   cases findIdByPath db p with
   | none => exact ⟨[], rfl⟩
   | some i => exact ⟨[i], rfl⟩
